@@ -5,7 +5,7 @@ from vf.build import build
 MIN_NONTRIVIAL = 15
 
 
-def gen_case(rng):
+def gen_case(rng, multi=False):
     kind = rng.choice(["nuc", "nuc", "prot"])
     n = rng.randint(2, 30)
     L = rng.randint(5, 250)
@@ -16,8 +16,9 @@ def gen_case(rng):
             # equal lengths: the canonical order then hangs on tie-breaking only
             root = gen.rand_seq(rng, L, alpha)
             seqs = [gen.mutate(rng, gen.mutate(rng, root, alpha, 0.1, 0.03, 2), alpha, 0.05, 0.0)[:L].ljust(L, alpha[0]) for _ in range(n)]
-        if rng.random() < 0.4:
-            seqs = ["".join(rng.choice("RYSWKMBDHV") if rng.random() < 0.04 else c for c in s) for s in seqs]
+        if rng.random() < (0.7 if multi else 0.4):
+            iu = rng.choice([0.04, 0.04, 0.07]) if multi else 0.04
+            seqs = ["".join(rng.choice("RYSWKMBDHV") if rng.random() < iu else c for c in s) for s in seqs]
     else:
         seqs = gen.family(rng, n, L, gen.AA, "random", 0.2, 0.04, 3)
         seqs = [s + "".join(rng.choice(gen.AA_ONLY) for _ in range(len(s) // 3 + 1)) for s in seqs]
@@ -33,11 +34,13 @@ def gen_case(rng):
     return kind, list(zip(names, seqs))
 
 
-def respell(rng, kind, recs):
+def respell(rng, kind, recs, multi=False):
     mode = rng.choice(["case", "case", "lower", "tu", "tu+case", "case_by_letter"] if kind == "nuc" else ["case", "case", "lower", "upper-lower-mix", "case_by_letter"])
+    if multi and rng.random() < 0.4:
+        mode = "case_by_letter"
     if mode == "case_by_letter":
         # the case pattern depends on the letter: e.g. only A/C/G/T/N upper case, everything else lower case
-        up = set(rng.choice(["ACGTN", "ACGTUN", "DEFHIKLMPQRSVWY", "AEIOU", "".join(rng.sample("ACDEFGHIKLMNPQRSTVWYU", 6))]))
+        up = set(rng.choice(["ACGTN", "ACGTUN", "DEFHIKLMPQRSVWY", "RYSWKMBDHV", "AEIOU", "".join(rng.sample("ACDEFGHIKLMNPQRSTVWYU", 6))]))
         out = [(n, "".join(c.upper() if c.upper() in up else c.lower() for c in s)) for n, s in recs]
         if out == recs:
             out = [(n, s.lower()) for n, s in recs]
@@ -58,7 +61,25 @@ def respell(rng, kind, recs):
     return mode, rate, out
 
 
-def lib_run(ck, paths, recs, ty, nt, ctx, array_api=False):
+def lib_run(ck, paths, recs, ty, nt, ctx, array_api=False, cuts=None):
+    if cuts:
+        # the records spread over several files that are read into one msa (what the CLI does with several inputs)
+        script = []
+        for a_, b_ in zip([0] + cuts, cuts + [len(recs)]):
+            f = ck.tmp(".fa")
+            common.write_bytes(f, fmt.write_fasta(recs[a_:b_]))
+            script.append("read 0 %s" % f)
+        script += ["run 0 %d %d -1 -1 -1" % (nt, ty), "dump 0", "free 0"]
+        r, lrecs = common.kvdrv(paths, script, scratch=ck.scratch)
+        if ck.proc_violations(r, dict(ctx, input=recs, cuts=cuts), allow_rcs=(0,)):
+            return None
+        reads = [x for x in lrecs if x.get("op") == "read"]
+        rn = next((x for x in lrecs if x.get("op") == "run"), None)
+        d = next((x for x in lrecs if x.get("op") == "dump"), None)
+        if len(reads) != len(cuts) + 1 or any(x.get("rc") != 0 for x in reads):
+            # kalign refuses to combine files whose kinds it detects differently (a short part with a few IUPAC codes may look like protein on its own)
+            return "refused"
+        return reads[-1], rn, d
     if array_api:
         # kalign() on arrays: the kind is decided from the raw characters by kalign_arr_to_msa
         sf = ck.tmp(".seqs")
@@ -87,26 +108,46 @@ def lib_run(ck, paths, recs, ty, nt, ctx, array_api=False):
 
 def run_case(ck, paths, idx):
     rng = ck.rng.__class__(ck.seed * 49979687 + idx)
-    kind, recs = gen_case(rng)
-    mode, rate, recs2 = respell(rng, kind, recs)
+    multi = rng.random() < 0.25
+    kind, recs = gen_case(rng, multi)
+    mode, rate, recs2 = respell(rng, kind, recs, multi)
     if recs2 == recs:
         ck.count("skipped_identical_respelling")
         return
     nt = rng.choice([1, 4])
     ctx = {"kind": kind, "mode": mode, "rate": rate, "idx": idx}
     # undefined type first to learn the detected kind of both spellings
-    arr = rng.random() < 0.3
+    arr = rng.random() < 0.3 and not multi
+    cuts = None
+    if multi and len(recs) >= 2:
+        # two or three files; the first one often holds only a small share of the records
+        k1 = rng.choice([1, 1, max(1, len(recs) // 4), rng.randint(1, len(recs) - 1)])
+        cuts = [k1] + ([rng.randint(k1 + 1, len(recs) - 1)] if len(recs) - k1 >= 2 and rng.random() < 0.4 else [])
+        ck.count("pairs_spread_over_several_files")
     if arr:
         ck.count("pairs_through_array_api")
-    a = lib_run(ck, paths, recs, 5, nt, ctx, arr)
-    b = lib_run(ck, paths, recs2, 5, nt, ctx, arr)
+    a = lib_run(ck, paths, recs, 5, nt, ctx, arr, cuts)
+    b = lib_run(ck, paths, recs2, 5, nt, ctx, arr, cuts)
     if a is None or b is None:
+        return
+    if a == "refused" or b == "refused":
+        if (a == "refused") != (b == "refused") and "tu" not in mode:
+            ck.violation("kind-changes-with-case:multi-file", "changing only the case of residues (%s, rate %g) decides whether %d files holding the records are accepted together" % (
+                mode, rate, len(cuts) + 1), dict(ctx, input=recs, respelled=recs2, cuts=cuts))
+        else:
+            ck.count("skipped_parts_detected_as_different_kinds")
         return
     if a[0]["biotype"] != b[0]["biotype"]:
         letters = "".join(s_ for _, s_ in recs).upper()
         p1 = all(c in "ACGTUN" for c in letters)
         p2 = sum(1 for c in letters if c in gen.AA_ONLY) * 4 >= len(letters)
-        if p1 or p2:
+        if "tu" not in mode:
+            # a pure change of case: upper and lower case count alike when the kind is decided, so the kind (and with it the alignment) must not move
+            ck.violation("kind-changes-with-case%s" % (":multi-file" if cuts else ":array-api" if arr else ""),
+                         "changing only the case of residues (%s, rate %g) changes the detected kind from %d to %d%s" % (
+                             mode, rate, a[0]["biotype"], b[0]["biotype"], " (records spread over %d files)" % (len(cuts) + 1) if cuts else ""),
+                         dict(ctx, input=recs, respelled=recs2, array_api=arr, cuts=cuts))
+        elif p1 or p2:
             # the composition satisfies one of the recognition premises (C13) in every spelling, so the kind must not change with the spelling
             ck.violation("kind-changes-with-spelling:%s%s" % ("nucleotide" if p1 else "protein", ":array-api" if arr else ""),
                          "re-spelling (%s, rate %g) changes the detected kind from %d to %d although the letters satisfy premise %d of C13" % (
@@ -120,11 +161,11 @@ def run_case(ck, paths, idx):
         return
     word = rng.choice(kal.ADMISSIBLE[det])
     if word is not None:
-        a = lib_run(ck, paths, recs, kal.TYPES[word], nt, ctx, arr)
-        b = lib_run(ck, paths, recs2, kal.TYPES[word], nt, ctx, arr)
-        if a is None or b is None:
+        a = lib_run(ck, paths, recs, kal.TYPES[word], nt, ctx, arr, cuts)
+        b = lib_run(ck, paths, recs2, kal.TYPES[word], nt, ctx, arr, cuts)
+        if a is None or b is None or a == "refused" or b == "refused":
             return
-    ctx2 = dict(ctx, type=word, detected=det, input=recs, respelled=recs2, nthreads=nt)
+    ctx2 = dict(ctx, type=word, detected=det, input=recs, respelled=recs2, nthreads=nt, cuts=cuts)
     if a[1]["rc"] != 0 or b[1]["rc"] != 0:
         ck.violation("run-failed", "kalign_run failed for one spelling (rc %s / %s)" % (a[1]["rc"], b[1]["rc"]), ctx2)
         return
@@ -155,7 +196,7 @@ def run(ck, tier):
     n = int((300 if tier == "quick" else 4000) * sc)
     common.pmap(lambda i: run_case(ck, paths, i), range(n), workers=12)
     ck.rule = ("nucleotide inputs over ACGT/ACGU/ACGTU/ACGTN (+ <= 4% IUPAC codes) and protein inputs (+ B/Z/X) re-spelled by random per-residue case flips "
-               "(rates 0.01..1), whole-sequence lower case, case tied to the letter (e.g. only A/C/G/T/N upper case) and random T<->U substitutions; 30% of the pairs go through kalign() on arrays; pair evaluated when kalign detects the same kind for both spellings; "
+               "(rates 0.01..1), whole-sequence lower case, case tied to the letter (e.g. only A/C/G/T/N upper case) and random T<->U substitutions; 30% of the pairs go through kalign() on arrays, 25% are spread over two or three files read into one msa; a pure case change must not move the detected kind; a T/U pair is evaluated when kalign detects the same kind for both spellings; "
                "all admissible types; threads 1/4. Oracle: identical gap pattern and letters equal to the re-spelled input. Non-trivial = output contains gaps.")
     ck.assumptions = ["library path (kalign_read_input + kalign_run) through kvdrv"]
 
